@@ -611,7 +611,7 @@ pub fn explore_main(prop: &dyn Prop, tier: Tier, replay_one: impl Fn(&Value) -> 
     for (class, (count, first)) in &viols {
         n_viol += count;
         exit = 1;
-        if written >= 25 {
+        if written >= 25 || first.is_null() {
             continue;
         }
         written += 1;
